@@ -310,7 +310,7 @@ Lemma c13_wire_hops_proof four w h :
 Proof.
   intros Hwf Hh. unfold wire_hops in Hh. destruct (wire_segments four w) as [segs| |] eqn:Es; cbn in Hh; try discriminate.
   inversion Hh; subst. unfold wire_segments in Es.
-  pose proof (segments_ok _ _ _ _ Hwf Es) as Hok. apply hops_of_segs_ok in Hok.
+  pose proof (segments_ok _ _ (parser_of w) _ Hwf Es) as Hok. apply hops_of_segs_ok in Hok.
   destruct (c13_to_wire_proof _ Hok) as (w' & segs' & E1 & _ & _ & E2). eauto.
 Qed.
 
@@ -321,7 +321,7 @@ Proof.
   intros Hwf Ha. unfold as_path_prepend. destruct (wire_hops four w) as [h| |] eqn:Eh; cbn [bind]; try discriminate.
   intros Hp. exists h. split; [reflexivity|].
   unfold wire_hops in Eh. destruct (wire_segments four w) as [segs| |] eqn:Es; cbn in Eh; try discriminate. inversion Eh; subst.
-  pose proof (segments_ok _ _ _ _ Hwf Es) as Hok. apply hops_of_segs_ok in Hok.
+  pose proof (segments_ok _ _ (parser_of w) _ Hwf Es) as Hok. apply hops_of_segs_ok in Hok.
   assert (Hall : Forall hop_ok (prepend_n (hops_of_segs segs) a n)).
   { unfold prepend_n. apply Forall_app. split; [|exact Hok]. apply Forall_forall. intros x Hx. apply repeat_spec in Hx. subst. exact Ha. }
   destruct (c13_to_wire_proof _ Hall) as (w2 & segs2 & E1 & _ & _ & E2). rewrite Hp in E1. inversion E1; subst. exact E2.
@@ -398,3 +398,18 @@ Proof.
   - intros (h & Hin & E). destruct (forallb hop_fits16 l) eqn:F; [|reflexivity].
     rewrite forallb_forall in F. rewrite (F h Hin) in E. discriminate.
 Qed.
+
+Definition is_asn (h : hop) : bool := match h with HAsn _ => true | _ => false end.
+Definition is_as_set (h : hop) : bool := match h with HSeg t _ => t =? 1 | _ => false end.
+
+Lemma c13_hopcount_proof l :
+  hop_count_path_selection l = (length (filter is_asn l) + length (filter is_as_set l))%nat.
+Proof.
+  induction l as [|h l IH]; [reflexivity|]. destruct h as [a|t asns]; cbn [hop_count_path_selection filter is_asn is_as_set length].
+  - rewrite IH. lia.
+  - destruct (t =? 1); cbn [length]; rewrite IH; lia.
+Qed.
+
+(* K1: a non-sequence segment with more than 255 ASNs cannot be written: to_as_path panics *)
+Lemma c13_k1_witness_proof : to_as_path [HSeg 1 (repeat 1 256)] = Panic.
+Proof. vm_compute. reflexivity. Qed.
